@@ -131,7 +131,7 @@ struct Ctx {
     const char *p = t.c_str() + 2;
     char *e;
     double cell[6];
-    for (int i = 0; i < 6; i++) { cell[i] = c_strtod(p, &e); p = e + 1; }
+    for (int i = 0; i < 6; i++) { cell[i] = c_strtod(p, &e); p = (*e) ? e + 1 : e; }      // a cell without atoms ends right after the sixth number
     while (*p) {
       Crystal_Atom a;
       a.Zatom = (int) strtol(p, &e, 10); p = e + 1;
@@ -343,10 +343,17 @@ static void call_addcrystal(Ctx &c) {
     } else {
       char extra[] = "one_too_many"; char *old = si->name; si->name = extra;
       int rv = Crystal_AddCrystal(si, NULL, NULL);      // no error slot
+      // the refusal repeated: it must not cost memory (half with an error slot, half without)
+      size_t h0 = heap_now();
+      for (int k = 0; k < 40; k++) { xrl_error *e = NULL; Crystal_AddCrystal(si, NULL, (k & 1) ? &e : NULL); if (e) xrl_error_free(e); }
+      long grown = (long) heap_now() - (long) h0;
+#ifdef HAVE_ASAN
+      if (grown > 0) { volatile char scrub[65536]; memset((void *) scrub, 0, sizeof scrub); if (__lsan_do_recoverable_leak_check() == 0) grown = 0; }
+#endif
       si->name = old;
       int n = 0; char **l = Crystal_GetCrystalsList(NULL, &n, NULL);
       if (l) { for (int i = 0; l[i]; i++) xrlFree(l[i]); xrlFree(l); }
-      c.result = "add4:rv=" + std::to_string(rv) + ";n=" + std::to_string(n) + ";cap=" + std::to_string(CRYSTALARRAY_MAX);
+      c.result = "add4:rv=" + std::to_string(rv) + ";n=" + std::to_string(n) + ";cap=" + std::to_string(CRYSTALARRAY_MAX) + ";grown=" + std::to_string(grown);
     }
     Crystal_Free(si);
     return;
@@ -513,6 +520,12 @@ __attribute__((no_sanitize("address"))) static unsigned long long fnv_ranges(con
   return h;
 }
 
+static int count_open_fds() {
+  int n = 0;
+  for (int fd = 0; fd < 1024; fd++) if (fcntl(fd, F_GETFD) != -1) n++;
+  return n;
+}
+
 // the executable's own static TLS block of the calling thread: everything thread-local that was linked in statically (libxrl.a and this file).
 // x86-64 (TLS variant II): the block of the main executable ends at the thread pointer and starts memsz (rounded up to its alignment) below it.
 #include <link.h>
@@ -646,12 +659,15 @@ int main(int argc, char **argv) {
     int so_saved = dup(1); int so_fd = memfd_create("xrlcall-stdout", 0); fflush(stdout); dup2(so_fd, 1);
     capture_begin();
     std::vector<std::string> res;
+    int fds0 = 0, fds1 = 0;      // open file descriptors right before / right after the calls of the history
     {
       // the caller's thread carries whatever errno its own earlier work left: a different stale value before every call of the history
       // (the fresh-process reference runs with errno 0); nothing the library answers may depend on it
       static const int stale[] = {0, ERANGE, EDOM, ENOENT, EINVAL, 0, ERANGE};
       size_t k = 0;
+      fds0 = count_open_fds();
       for (auto &l : lines) { errno = stale[(k++ * 7 + l.size()) % 7]; res.push_back(run_keep(l)); }
+      fds1 = count_open_fds();
     }
     std::string serr = capture_end();
     fflush(stdout); dup2(so_saved, 1);
@@ -669,7 +685,7 @@ int main(int argc, char **argv) {
     int r_after = rand();
     srand(12345u); r_expect = rand();
     int libc_ok = (tok1 && tok2 && strcmp(tok2, "second") == 0 && r_after == r_expect) ? 1 : 0;
-    int env_ok = (fegetround() == fe_round0 && fegetexcept() == fe_exc0 && um0 == um1 && libc_ok) ? 1 : 0;
+    int env_ok = (fegetround() == fe_round0 && fegetexcept() == fe_exc0 && um0 == um1 && libc_ok && fds1 == fds0) ? 1 : 0;
     fprintf(out, "STATE\t%llx\t%llx\t%d\t%d\t%d\t%s\t%s\t%zu\t%zu\t%d\n", ck0, ck1, loc0 == loc1 ? 1 : 0, strcmp(cwd0, cwd1) == 0 ? 1 : 0, errs_ok ? 1 : 0,
             serr.empty() ? "-" : hexenc(serr.c_str(), serr.size()).c_str(), sout.empty() ? "-" : hexenc(sout.c_str(), sout.size()).c_str(), kept_errors.size(), ranges.size(), env_ok);
     fseek(out, -1, SEEK_CUR); fprintf(out, "\t%d\n", fnv_ranges(ranges, 1) == ckt0 ? 1 : 0);      // 12th field: the shipped tables themselves are unchanged
